@@ -49,6 +49,7 @@ type fWorld struct {
 	domains   []string // pool domains mentioned anywhere in the lists
 	docSites  []string // hosts covered by a document-level exception with cosmetic modifiers
 	must      []string // hostnames every query pool asks about (the names of the hosts clusters)
+	extra     []*fQuery // queries every query pool contains (aimed at the clusters added by fAddDomainCluster)
 }
 
 var fHostIPs = []string{"0.0.0.0", "127.0.0.1", "::", "::1", "10.1.2.3", "2001:db8::5"}
@@ -177,6 +178,20 @@ func fGenWorld(r *rng, maxLines int, fileMode int) *fWorld {
 					w.ruleTexts = append(w.ruleTexts, line)
 				}
 				w.domains = append(w.domains, sh)
+			}
+		}
+		if r.chance(1, 2) {
+			// N2: generic cosmetic rules (and an exception for one site), so that the generic-CSS bit of a cosmetic query
+			// decides something for EVERY host
+			if sb.Len() > 0 && !strings.HasSuffix(sb.String(), "\n") {
+				sb.WriteString("\n")
+			}
+			sb.WriteString(fmt.Sprintf("##.generic%d\n", li))
+			if r.chance(1, 2) {
+				sb.WriteString(fmt.Sprintf("%s#@#.generic%d\n", pick(r, poolDomains), li))
+			}
+			if r.chance(1, 2) {
+				sb.WriteString(fmt.Sprintf("~%s##.generic%db\n", pick(r, poolDomains), li))
 			}
 		}
 		if r.chance(1, 4) {
@@ -463,6 +478,8 @@ type fQuery struct {
 	web  *rules.Request
 	host string
 	opt  rules.CosmeticOption
+	// fam groups a query with its one-field variants (N2): same hostname / URL, ONE other datum
+	fam int
 }
 
 func (q *fQuery) String() string {
@@ -480,9 +497,40 @@ func (q *fQuery) String() string {
 // repeats): DNS queries come in families that share the hostname and differ in
 // the client fields.
 func fGenQueryPool(r *rng, w *fWorld, n int) (qs []*fQuery) {
+	defer func() {
+		// N2: families of one-field variants.  Every query drawn below founds a family (its old-style siblings included);
+		// a third of the families get 1-3 variants that differ from a member in exactly ONE datum (client name, tags,
+		// address, record type; cosmetic option bit; referrer, request type), so that an answer cached under a key that
+		// ignores that datum is asked for again with the datum changed.
+		fam := 0
+		for i, q := range qs {
+			if q.fam == 0 {
+				fam++
+				q.fam = fam
+				for j := i + 1; j < len(qs) && qs[j].kind == q.kind && fSameSubject(q, qs[j]); j++ {
+					qs[j].fam = fam
+				}
+			}
+		}
+		base := len(qs)
+		for i := 0; i < base; i++ {
+			if qs[i].kind != "cos" && !r.chance(1, 3) {
+				continue
+			}
+			cur := qs[i]
+			for k := 1 + r.n(3); k > 0; k-- {
+				v := fOneFieldVariant(r, cur)
+				qs = append(qs, v)
+				if r.chance(1, 2) {
+					cur = v // chains: each differs from the previous one in one datum
+				}
+			}
+		}
+	}()
 	for _, h := range w.must {
 		qs = append(qs, &fQuery{kind: "dns", dns: &urlfilter.DNSRequest{Hostname: h}})
 	}
+	qs = append(qs, w.extra...)
 	n += len(qs)
 	for len(qs) < n {
 		switch k := r.n(10); {
@@ -527,6 +575,113 @@ func fGenQueryPool(r *rng, w *fWorld, n int) (qs []*fQuery) {
 	}
 
 	return qs
+}
+
+func fSameSubject(a, b *fQuery) bool {
+	switch a.kind {
+	case "dns":
+		return a.dns.Hostname == b.dns.Hostname
+	case "cos":
+		return a.host == b.host
+	default:
+		return a.web.URL == b.web.URL
+	}
+}
+
+// fOneFieldVariant: a copy of q (same family) with exactly ONE datum changed.
+func fOneFieldVariant(r *rng, q *fQuery) *fQuery {
+	v := *q
+	switch q.kind {
+	case "dns":
+		d := *q.dns
+		switch r.n(5) {
+		case 0:
+			// one tag more / less / another set
+			tags := append([]string(nil), d.SortedClientTags...)
+			switch {
+			case len(tags) > 0 && r.chance(1, 2):
+				i := r.n(len(tags))
+				tags = append(tags[:i:i], tags[i+1:]...)
+			default:
+				t := pick(r, poolTags)
+				has := false
+				for _, x := range tags {
+					has = has || x == t
+				}
+				if !has {
+					tags = append(tags, t)
+					sort.Strings(tags)
+				} else {
+					tags = genSortedTags(r)
+				}
+			}
+			d.SortedClientTags = tags
+		case 1, 2:
+			names := append([]string{""}, poolClientNames...)
+			for try := 0; try < 4; try++ {
+				if n := pick(r, names); n != d.ClientName {
+					d.ClientName = n
+
+					break
+				}
+			}
+		case 3:
+			for try := 0; try < 4; try++ {
+				if ip := genClientIP(r); ip != d.ClientIP {
+					d.ClientIP = ip
+
+					break
+				}
+			}
+		default:
+			for try := 0; try < 4; try++ {
+				if t := pick(r, poolDNSQTypes); t != d.DNSType {
+					d.DNSType = t
+
+					break
+				}
+			}
+		}
+		v.dns = &d
+	case "cos":
+		// the generic-CSS bit half of the time (with the CSS bit set it decides whether generic rules are returned)
+		bit := pick(r, []rules.CosmeticOption{rules.CosmeticOptionGenericCSS, rules.CosmeticOptionGenericCSS, rules.CosmeticOptionCSS, rules.CosmeticOptionJS})
+		v.opt = q.opt ^ bit
+		if bit == rules.CosmeticOptionGenericCSS && r.chance(1, 2) {
+			v.opt |= rules.CosmeticOptionCSS
+		}
+	default:
+		w := q.web
+		var n *rules.Request
+		if w.IsHostnameRequest {
+			d := &urlfilter.DNSRequest{Hostname: w.Hostname, SortedClientTags: w.SortedClientTags, ClientName: w.ClientName, ClientIP: w.ClientIP, DNSType: w.DNSType}
+
+			return &fQuery{kind: q.kind, web: hostnameRequest(fOneFieldVariant(r, &fQuery{kind: "dns", dns: d}).dns), fam: q.fam}
+		}
+		switch r.n(3) {
+		case 0:
+			n = rules.NewRequest(w.URL, w.SourceURL, pick(r, poolReqTypes))
+		case 1:
+			n = rules.NewRequest(w.URL, genSourceURL(r), w.RequestType)
+		default:
+			// another PAGE of the same referrer site / no referrer
+			src := ""
+			if w.SourceURL == "" {
+				src = genSourceURL(r)
+			} else if i := strings.Index(w.SourceURL, "://"); i > 0 && r.chance(2, 3) {
+				rest := w.SourceURL[i+3:]
+				if j := strings.IndexByte(rest, '/'); j >= 0 {
+					rest = rest[:j]
+				}
+				src = w.SourceURL[:i+3] + rest + pick(r, []string{"/", "/other-page", "/index.html?x=1"})
+			}
+			n = rules.NewRequest(w.URL, src, w.RequestType)
+		}
+		n.SortedClientTags, n.ClientName, n.ClientIP, n.DNSType = w.SortedClientTags, w.ClientName, w.ClientIP, w.DNSType
+		v.web = n
+	}
+
+	return &v
 }
 
 // fLawMarker flags an answer that violates a Go-only law of the property.
